@@ -2013,3 +2013,185 @@ func orNone(s string) string {
 	}
 	return s
 }
+
+// E11DashParity: the parity of a dash index is only used on an even-length (doubled) array.
+func E11DashParity(c *core.Ctx, r *core.Report) {
+	r.Rule("E11.dash-parity", "dashStart returns an index into the array it is given; a caller that decides dash-or-gap from the parity of that index (i%2) must have given it an array of even length, i.e. the array argument is doubled when odd (`if len(X)%2 == 1 { X = append(X, X...) }` or a doubled copy) before the call, as the SVG/PDF dash semantics and Path.Dash do. On an odd-length array every second period has the parities exchanged, so checkDash and Dash disagree on whether a short path is stroked")
+	p := c.MustPkg("")
+	info := p.TypesInfo
+	n := 0
+	for _, fd := range core.AllFuncDecls(p) {
+		if fd.Body == nil {
+			continue
+		}
+		fname := "canvas." + core.FuncName(fd)
+		ast.Inspect(fd.Body, func(m ast.Node) bool {
+			as, ok := m.(*ast.AssignStmt)
+			if !ok || len(as.Rhs) != 1 || len(as.Lhs) != 2 {
+				return true
+			}
+			call, ok := core.Unparen(as.Rhs[0]).(*ast.CallExpr)
+			if !ok || len(call.Args) != 2 {
+				return true
+			}
+			f := core.CalleeOf(info, call)
+			if f == nil || f.Name() != "dashStart" || f.Pkg() != p.Types {
+				return true
+			}
+			idxID, ok := as.Lhs[0].(*ast.Ident)
+			if !ok {
+				return true
+			}
+			idx := core.ObjOf(info, idxID)
+			// parity use of the index or of a variable initialised from it
+			derived := map[types.Object]bool{idx: true}
+			ast.Inspect(fd.Body, func(k ast.Node) bool {
+				if a2, ok := k.(*ast.AssignStmt); ok && len(a2.Lhs) == 1 && len(a2.Rhs) == 1 {
+					if rid, ok := core.Unparen(a2.Rhs[0]).(*ast.Ident); ok && derived[core.ObjOf(info, rid)] {
+						if lid, ok := a2.Lhs[0].(*ast.Ident); ok {
+							derived[core.ObjOf(info, lid)] = true
+						}
+					}
+				}
+				return true
+			})
+			parity := false
+			ast.Inspect(fd.Body, func(k ast.Node) bool {
+				if be, ok := k.(*ast.BinaryExpr); ok && be.Op == token.REM {
+					if id, ok := core.Unparen(be.X).(*ast.Ident); ok && derived[core.ObjOf(info, id)] {
+						if v, ok := core.ConstInt(info, be.Y); ok && v == 2 {
+							parity = true
+						}
+					}
+				}
+				return true
+			})
+			if !parity {
+				return true
+			}
+			n++
+			key := fname + "|dash index parity"
+			arg, ok := core.Unparen(call.Args[1]).(*ast.Ident)
+			if !ok {
+				r.Fail("E11.dash-parity", key, c.Pos(call.Pos()), "the array handed to dashStart is not a variable; its evenness cannot be established")
+				return true
+			}
+			arr := core.ObjOf(info, arg)
+			// a guard `if len(Y)%2 == 1 { arr = append(…Y…, Y...) }` before the call
+			doubled := false
+			ast.Inspect(fd.Body, func(k ast.Node) bool {
+				is, ok := k.(*ast.IfStmt)
+				if !ok || is.End() > call.Pos() {
+					return true
+				}
+				be, ok := core.Unparen(is.Cond).(*ast.BinaryExpr)
+				if !ok || be.Op != token.EQL {
+					return true
+				}
+				rem, ok := core.Unparen(be.X).(*ast.BinaryExpr)
+				if !ok || rem.Op != token.REM {
+					return true
+				}
+				if v, ok := core.ConstInt(info, be.Y); !ok || v != 1 {
+					return true
+				}
+				for _, s := range is.Body.List {
+					if a2, ok := s.(*ast.AssignStmt); ok && len(a2.Lhs) == 1 && len(a2.Rhs) == 1 {
+						if lid, ok := a2.Lhs[0].(*ast.Ident); ok && core.ObjOf(info, lid) == arr {
+							if ap, ok := core.Unparen(a2.Rhs[0]).(*ast.CallExpr); ok && ap.Ellipsis.IsValid() {
+								if fid, ok := ap.Fun.(*ast.Ident); ok && fid.Name == "append" {
+									doubled = true
+								}
+							}
+						}
+					}
+				}
+				return true
+			})
+			if doubled {
+				r.OK("E11.dash-parity", key, c.Pos(call.Pos()), "the array is doubled when odd before dashStart")
+			} else {
+				r.Fail("E11.dash-parity", key, c.Pos(call.Pos()), fmt.Sprintf("%s decides dash-or-gap from the parity of the index dashStart returns, but the array it passes may have odd length (no `if len(…)%%2 == 1 { … = append(…, …...) }` before the call): in every second period of an odd-length pattern the parities are exchanged", fname))
+			}
+			return true
+		})
+	}
+	r.Count("E11.dash-parity-uses", n)
+	r.Floor("E11.dash-parity-uses", 2)
+}
+
+// E11DrawLoopState: the style one path is drawn with does not depend on the paths drawn before it.
+func E11DrawLoopState(c *core.Ctx, r *core.Report) {
+	r.Rule("E11.draw-loop-state", "Context.DrawPath draws each of its paths with the context's style: inside the loop over the paths no variable declared outside the loop is assigned under a condition unless the same location is also assigned unconditionally earlier in every iteration (a per-iteration copy declared inside the loop is the other accepted form). A conditional write to the shared style — dropping the stroke of a path that falls into a dash gap — otherwise persists for all later paths of the call")
+	p := c.MustPkg("")
+	info := p.TypesInfo
+	fd := core.MustFuncDecl(p, "Context.DrawPath")
+	r.Func("canvas.Context.DrawPath")
+	n := 0
+	ast.Inspect(fd.Body, func(m ast.Node) bool {
+		rs, ok := m.(*ast.RangeStmt)
+		if !ok {
+			return true
+		}
+		n++
+		// unconditional assignments at the top level of the body
+		uncond := map[string]bool{}
+		bad := ""
+		var badPos ast.Node
+		var visit func(list []ast.Stmt, conditional bool)
+		check := func(as *ast.AssignStmt, conditional bool) {
+			for _, l := range as.Lhs {
+				root := core.RootIdent(l)
+				if root == nil || root.Name == "_" {
+					continue
+				}
+				o := core.ObjOf(info, root)
+				if o == nil || o.Pos() >= rs.Pos() {
+					continue // declared inside the loop: per-iteration
+				}
+				loc := types.ExprString(l)
+				if !conditional {
+					uncond[loc] = true
+				} else if !uncond[loc] && bad == "" {
+					bad = loc
+					badPos = as
+				}
+			}
+		}
+		visit = func(list []ast.Stmt, conditional bool) {
+			for _, s := range list {
+				switch x := s.(type) {
+				case *ast.AssignStmt:
+					check(x, conditional)
+				case *ast.IfStmt:
+					visit(x.Body.List, true)
+					if eb, ok := x.Else.(*ast.BlockStmt); ok {
+						visit(eb.List, true)
+					} else if ei, ok := x.Else.(*ast.IfStmt); ok {
+						visit([]ast.Stmt{ei}, true)
+					}
+				case *ast.BlockStmt:
+					visit(x.List, conditional)
+				case *ast.ForStmt:
+					visit(x.Body.List, true)
+				case *ast.RangeStmt:
+					visit(x.Body.List, true)
+				case *ast.SwitchStmt:
+					for _, cs := range x.Body.List {
+						visit(cs.(*ast.CaseClause).Body, true)
+					}
+				}
+			}
+		}
+		visit(rs.Body.List, false)
+		key := fmt.Sprintf("canvas.Context.DrawPath|loop #%d|no conditional write to state shared by the iterations", n)
+		if bad == "" {
+			r.OK("E11.draw-loop-state", key, c.Pos(rs.Pos()), "")
+		} else {
+			r.Fail("E11.draw-loop-state", key, c.Pos(badPos.Pos()), fmt.Sprintf("`%s` is declared outside the loop over the paths and is assigned only under a condition inside it: once the condition holds for one path the value stays for every later path of the same DrawPath call", bad))
+		}
+		return true
+	})
+	r.Count("E11.draw-loops", n)
+	r.Floor("E11.draw-loops", 1)
+}
